@@ -91,31 +91,33 @@ theorem watchdog_paused (d : Nat) (s : WdSt) (ins : List WdIn) (h : ∀ i ∈ in
   wd_frozen d ins h s
 
 /-- **Reset delay.**  After every history from reset the reset output is high iff the timeout condition
-    (`enable ∧ execute ∧ reset mode`) has held for the last `reset_delay` cycles or more. -/
+    (`enable ∧ execute ∧ reset mode`) holds now and has held for the `reset_delay` cycles before. -/
 theorem watchdog_reset_delay (d : Nat) (ins : List WdIn) (i : WdIn) :
     ((watchdog d).out ((watchdog d).run ins) i).crgRst =
-      decide (d ≤ WaitTimer.streak (wdWaits d (watchdog d).init ins)) := by
+      (wdWait ((watchdog d).run ins) i && decide (d ≤ WaitTimer.streak (wdWaits d (watchdog d).init ins))) := by
   have h := wd_rcount d ins (watchdog d).init 0 (by simp [watchdog])
-  show WaitTimer.done ((watchdog d).runFrom (watchdog d).init ins).rcount = _
+  show (wdWait _ i && WaitTimer.done ((watchdog d).runFrom (watchdog d).init ins).rcount) = _
   rw [h]
+  congr 1
   simp only [WaitTimer.done, WaitTimer.streak]
   by_cases hle : d ≤ WaitTimer.streakFrom 0 (wdWaits d (watchdog d).init ins)
   · simp [hle, Nat.sub_eq_zero_of_le hle]
   · have : d - WaitTimer.streakFrom 0 (wdWaits d (watchdog d).init ins) ≠ 0 := by omega
     simp [hle, this]
 
-/-- Consequence for `reset_delay ≥ 1`: no reset without a timeout in reset mode.
-    Full statement (`watchdog_no_spurious_reset`, any `d`) is false for `d = 0`, see the witness below. -/
-theorem watchdog_no_spurious_reset_partial (d : Nat) (hd : 0 < d) (ins : List WdIn) (i : WdIn)
+/-- **No reset without a timeout**, for every `reset_delay` (also 0, the constructor default): the reset output is
+    high only in a cycle in which the watchdog is enabled, has timed out and is in reset mode. -/
+theorem watchdog_no_spurious_reset (d : Nat) (ins : List WdIn) (i : WdIn)
     (h : ((watchdog d).out ((watchdog d).run ins) i).crgRst = true) :
-    0 < WaitTimer.streak (wdWaits d (watchdog d).init ins) := by
+    i.enable = true ∧ ((watchdog d).run ins).execute = true ∧ i.resetF = true := by
   rw [watchdog_reset_delay] at h
-  simp at h
-  omega
+  simp only [wdWait, Bool.and_eq_true] at h
+  exact ⟨h.1.1.1, h.1.1.2, h.1.2⟩
 
-/-- Negative witness: `Watchdog(reset_delay=0)` (the constructor default) drives the reset output high in the
-    reset state itself — the watchdog is not even enabled. -/
-example : ((watchdog 0).out (watchdog 0).init ⟨false, false, false, false, false, 0⟩).crgRst = true := by decide
+/-- `reset_delay = 0`: quiet in the reset state, reset in the very cycle of a timeout in reset mode. -/
+example : ((watchdog 0).out (watchdog 0).init ⟨false, false, false, false, false, 0⟩).crgRst = false ∧
+    (((watchdog 0).trace (List.replicate 3 ⟨false, true, true, false, false, 0⟩)).map (·.crgRst)) =
+      [false, true, true] := by decide
 
 example : (((watchdog 2).trace (List.replicate 6 ⟨false, true, true, false, false, 0⟩)).map (·.crgRst)) =
     [false, false, false, true, true, true] := by decide
